@@ -169,7 +169,7 @@ func (c *Ctx) c07Index(b BK) {
 					default: // evictLeast: string(i.K) collected from the iterated entries
 						src := k
 						for src != nil && (src.Kind == pw.KField || src.Kind == pw.KIndex) {
-							if src.Kind == pw.KField && src.Field != nil && src.Field.Name() == "key" {
+							if src.Kind == pw.KField && src.Field != nil && fname(src.Field) == "key" {
 								break
 							}
 							src = src.Src
@@ -190,7 +190,7 @@ func (c *Ctx) c07Index(b BK) {
 // isEntryField: v is the read of field name of some entry variable/value.
 func isEntryField(v *pw.Val, name string) bool {
 	for x := v; x != nil; x = x.Src {
-		if x.Kind == pw.KField && x.Field != nil && x.Field.Name() == name {
+		if x.Kind == pw.KField && x.Field != nil && fname(x.Field) == name {
 			return true
 		}
 		if x.Kind != pw.KConv && x.Kind != pw.KSlice {
@@ -310,7 +310,7 @@ func (c *Ctx) c07Read(b BK) {
 		var E *pw.Val
 		var now *pw.Val
 		for _, ev := range p.Events {
-			if ev.Kind == pw.EvFieldRead && ev.Field != nil && ev.Field.Name() == "E" && isEntry(ev.Recv) {
+			if ev.Kind == pw.EvFieldRead && ev.Field != nil && fname(ev.Field) == "E" && isEntry(ev.Recv) {
 				E = ev.Value
 			}
 			if ev.Kind == pw.EvCall && ev.Role == "Std:time.Time.UnixNano" {
@@ -344,7 +344,7 @@ func (c *Ctx) c07Read(b BK) {
 		}
 		if isHit {
 			nHit++
-			if !(val.Kind == pw.KField && val.Field != nil && val.Field.Name() == "V" && isEntry(val.Src)) {
+			if !(val.Kind == pw.KField && val.Field != nil && fname(val.Field) == "V" && isEntry(val.Src)) {
 				r.Bad("R07.2", op, "hit-value", c.Pos(p.RetPos), "a hit must return the V of the looked-up entry, got "+val.String(), shortTrace(p))
 			}
 		} else if isExpired {
@@ -362,7 +362,7 @@ func (c *Ctx) c07Read(b BK) {
 							return ""
 						}
 						if v.Kind == pw.KField && v.Field != nil && isEntry(v.Src) {
-							return v.Field.Name()
+							return fname(v.Field)
 						}
 						if v.Kind == pw.KConv {
 							return fromField(v.Src, d+1)
@@ -455,7 +455,7 @@ func (c *Ctx) c07ExpiredAccessors(b BK) {
 		for _, p := range paths {
 			found := false
 			for _, ev := range p.Events {
-				if ev.Kind == pw.EvFieldRead && ev.Field != nil && ev.Field.Name() == m.field && ev.Recv != nil && ev.Recv.Kind == pw.KField && ev.Recv.Field.Name() == "entry" {
+				if ev.Kind == pw.EvFieldRead && ev.Field != nil && fname(ev.Field) == m.field && ev.Recv != nil && ev.Recv.Kind == pw.KField && fname(ev.Recv.Field) == "entry" {
 					found = true
 				}
 			}
@@ -797,7 +797,7 @@ func sameKeyVal(a, b *pw.Val) bool {
 
 // emptiesShard: the event assigns a shard's map a fresh empty map or nil (lazy re-allocation is the writers' business, see C13 R13.4).
 func emptiesShard(ev *pw.Event) bool {
-	if ev.Kind != pw.EvFieldWrite || ev.Field == nil || ev.Field.Name() != "data" || ev.Value == nil {
+	if ev.Kind != pw.EvFieldWrite || ev.Field == nil || fname(ev.Field) != "data" || ev.Value == nil {
 		return false
 	}
 	if _, isMap := ev.Field.Type().Underlying().(*types.Map); !isMap {
@@ -813,7 +813,7 @@ func overShards(g *iterGroup) bool {
 	for v != nil && (v.Kind == pw.KAddr || v.Kind == pw.KSlice || v.Kind == pw.KConv) {
 		v = v.Src
 	}
-	return v != nil && v.Kind == pw.KField && v.Field != nil && v.Field.Name() == "hashedBuckets"
+	return v != nil && v.Kind == pw.KField && v.Field != nil && fname(v.Field) == "hashedBuckets"
 }
 
 // shardCoverage: a whole-collection operation of a sharded backend must examine the map of every shard it steps over (scan it, take
@@ -895,7 +895,7 @@ func (c *Ctx) c07Batch(b BK) {
 								effects++
 							}
 						}
-						if ev.Kind == pw.EvFieldWrite && ev.Field != nil && ev.Field.Name() == "E" {
+						if ev.Kind == pw.EvFieldWrite && ev.Field != nil && fname(ev.Field) == "E" {
 							if ev.Value == startTS && startTS != nil {
 								effects++
 							}
